@@ -673,6 +673,11 @@ fn clear_dir(dir: &Path) {
     }
 }
 
+thread_local! {
+    /// seconds a daacfind process may run before it is killed (lower while minimising a hang)
+    pub static PROCESS_TIMEOUT_S: std::cell::Cell<u64> = const { std::cell::Cell::new(20) };
+}
+
 pub fn execute(sc: &Scenario, bins: &Bins, dir: &Path) -> RunResult {
     std::fs::create_dir_all(dir).expect("harness: cannot create run directory");
     clear_dir(dir);
@@ -717,7 +722,7 @@ pub fn execute(sc: &Scenario, bins: &Bins, dir: &Path) -> RunResult {
         match child.try_wait().expect("harness: wait failed") {
             Some(s) => break Some(s),
             None => {
-                if t0.elapsed() > Duration::from_secs(20) {
+                if t0.elapsed() > Duration::from_secs(PROCESS_TIMEOUT_S.with(|t| t.get())) {
                     let _ = child.kill();
                     let _ = child.wait();
                     timed_out = true;
@@ -769,7 +774,18 @@ fn parse_log(log: &str) -> (Vec<LogCall>, Vec<(i32, String)>) {
 }
 
 pub fn run(sc: &Scenario, bins: &Bins, dir: &Path, known_crlf: bool) -> Outcome {
-    let r = execute(sc, bins, dir);
+    let mut r = execute(sc, bins, dir);
+    if r.timed_out {
+        // a hang is only believed if the same scenario hangs twice more; a process that was
+        // merely starved once is re-judged on its completed run
+        for _ in 0..2 {
+            let again = execute(sc, bins, dir);
+            if !again.timed_out {
+                r = again;
+                break;
+            }
+        }
+    }
     let mut c = Counters::default();
     c.processes = 1;
     match sc.profile {
@@ -910,7 +926,7 @@ pub fn run(sc: &Scenario, bins: &Bins, dir: &Path, known_crlf: bool) -> Outcome 
     let mut known = None;
     let stderr = String::from_utf8_lossy(&r.stderr);
     let violation = if r.timed_out {
-        Some(Violation { class: "no-return".into(), detail: "daacfind did not exit within 20 s".into() })
+        Some(Violation { class: "no-return".into(), detail: format!("daacfind did not exit within {} s (three times in a row)", PROCESS_TIMEOUT_S.with(|t| t.get())) })
     } else if r.status == Some(101) || stderr.contains("panicked at") {
         let first = stderr.lines().find(|l| !l.trim().is_empty()).unwrap_or("").to_string();
         let msg = stderr.lines().skip_while(|l| !l.contains("panicked at")).nth(1).unwrap_or("").to_string();
@@ -1043,7 +1059,12 @@ pub fn generate(seed: u64, cfg: &GenCfg) -> Scenario {
         1 => &["a", "b", "c", "d", "e", "é", "世", " "],
         _ => FILLER,
     };
-    let np = if cfg.small { rng.range(1, 4) } else if many { rng.range(40, 500) } else { rng.range(1, 12) };
+    // a quarter of the large sets is really large: 300-600 patterns of 8-40 letters, i.e. several
+    // thousand states, more than the 16 blocks the default builder keeps open at a time
+    let huge = many && rng.chance(1, 4);
+    const AZ: &[&str] = &["a", "b", "c", "d", "e", "f", "g", "h", "i", "j", "k", "l", "m", "n", "o", "p", "q", "r", "s", "t", "u", "v", "w", "x", "y", "z"];
+    let many_alpha: &[&str] = if huge && rng.chance(1, 2) { AZ } else { many_alpha };
+    let np = if cfg.small { rng.range(1, 4) } else if huge { rng.range(300, 600) } else if many { rng.range(40, 500) } else { rng.range(1, 12) };
     let mut patterns: Vec<String> = vec![];
     for _ in 0..np * 4 {
         if patterns.len() >= np {
@@ -1051,7 +1072,7 @@ pub fn generate(seed: u64, cfg: &GenCfg) -> Scenario {
         }
         let p = if many {
             // hundreds of patterns: the automaton of daacfind spans several blocks
-            let n = if many_alpha.len() <= 8 { rng.range(2, 8) } else { rng.range(2, 5) };
+            let n = if huge { rng.range(8, 40) } else if many_alpha.len() <= 8 { rng.range(2, 8) } else { rng.range(2, 5) };
             (0..n).map(|_| *rng.pick(many_alpha)).collect::<String>()
         } else if rng.chance(3, 4) {
             rng.pick(WORDS).to_string()
@@ -1186,15 +1207,80 @@ pub fn gen_sched(rng: &mut Rng, mode: Mode) -> Sched {
 // minimisation
 
 pub fn minimise(sc: &Scenario, class: &str, bins: &Bins, dir: &Path, known_crlf: bool) -> Scenario {
+    // bounded: at most ~2 minutes of wall clock, shorter process time-out while shrinking a hang
+    let deadline = Instant::now() + Duration::from_secs(120);
+    if class == "no-return" {
+        PROCESS_TIMEOUT_S.with(|t| t.set(4));
+    }
     let fails = |c: &Scenario| -> bool {
-        if c.patterns.is_empty() {
+        if c.patterns.is_empty() || Instant::now() > deadline {
             return false;
         }
         run(c, bins, dir, known_crlf).violation.map(|v| v.class == class).unwrap_or(false)
     };
+    // remove items of a list in halving chunks first, then one by one
+    fn chunked<T: Clone>(items: &[T], min_len: usize, test: &dyn Fn(&[T]) -> bool) -> Vec<T> {
+        let mut cur: Vec<T> = items.to_vec();
+        let mut chunk = (cur.len() / 2).max(1);
+        loop {
+            let mut i = 0;
+            while i < cur.len() && cur.len() > min_len {
+                let end = (i + chunk).min(cur.len());
+                if cur.len() - (end - i) < min_len {
+                    i += chunk;
+                    continue;
+                }
+                let mut cand = cur[..i].to_vec();
+                cand.extend_from_slice(&cur[end..]);
+                if test(&cand) {
+                    cur = cand;
+                } else {
+                    i += chunk;
+                }
+            }
+            if chunk == 1 {
+                break;
+            }
+            chunk = (chunk / 2).max(1);
+        }
+        cur
+    }
     let mut cur = sc.clone();
     for _round in 0..3 {
         let before = scenario_hash(&cur);
+        if cur.patterns.len() > 8 {
+            // all patterns through -f keeps the argument handling out of the way
+            let base = cur.clone();
+            let idx: Vec<usize> = (0..base.patterns.len()).collect();
+            let keep = chunked(&idx, 1, &|ix: &[usize]| {
+                let mut c = base.clone();
+                c.patterns = ix.iter().map(|&i| base.patterns[i].clone()).collect();
+                c.p_count = ix.iter().filter(|&&i| i < base.p_count).count();
+                fails(&c)
+            });
+            cur.patterns = keep.iter().map(|&i| base.patterns[i].clone()).collect();
+            cur.p_count = keep.iter().filter(|&&i| i < base.p_count).count();
+        }
+        for f in 0..cur.files.len() {
+            if cur.files[f].1.len() > 8 {
+                let base = cur.clone();
+                let keep = chunked(&base.files[f].1, 0, &|ls: &[String]| {
+                    let mut c = base.clone();
+                    c.files[f].1 = ls.to_vec();
+                    fails(&c)
+                });
+                cur.files[f].1 = keep;
+            }
+        }
+        if cur.stdin_lines.len() > 8 {
+            let base = cur.clone();
+            let keep = chunked(&base.stdin_lines, 0, &|ls: &[String]| {
+                let mut c = base.clone();
+                c.stdin_lines = ls.to_vec();
+                fails(&c)
+            });
+            cur.stdin_lines = keep;
+        }
         // faults first: without them the failure is an input failure
         for which in 0..2 {
             let mut c = cur.clone();
@@ -1321,5 +1407,6 @@ pub fn minimise(sc: &Scenario, class: &str, bins: &Bins, dir: &Path, known_crlf:
             break;
         }
     }
+    PROCESS_TIMEOUT_S.with(|t| t.set(20));
     cur
 }
